@@ -76,3 +76,17 @@ contract(f"{C}::Calibrator.set_scheduler", params={"scheduler": "opaque:BaseSche
          ensures=[_KEEP, _INJ, "self.scheduler is scheduler",
                   "forall(range(0, len(scheduler.samplers)), lambda j: type(scheduler.samplers[j]).__name__ in self.samplers_id_table)"],
          modifies=["self.samplers_id_table[*]", "self.scheduler"])
+
+# ---- plotting utilities: the id table recovered from a checkpoint (over the ghost checkpoint folder) ----------------
+PL = "black_it/plot/plot_results.py"
+contract(f"{PL}::_get_samplers_id_table", params={"saving_folder": "opaque"}, returns="dict[int]", props=["C18"],
+         requires=["disk_exists('scheduler_pickled.pickle')"],
+         defs={"lineup": ([], "disk_pickle('scheduler_pickled.pickle').samplers")},
+         ensures=[
+             # the table recovered for plotting names exactly the classes of the line-up stored in the checkpoint ...
+             "forall(lambda a: (a in result) == exists(range(0, len(lineup())), lambda j: type(lineup()[j]).__name__ == a))",
+             # ... one id per class
+             "forall(lambda a, b: implies(a in result and b in result and result[a] == result[b], a == b))",
+         ], modifies=[],
+         notes="recomputed from the line-up at save time, NOT the table the calibrator labelled the history with: known "
+               "finding F-18b (ids of classes replaced earlier by set_samplers / set_scheduler are lost)")
